@@ -20,6 +20,7 @@ import (
 	"path/filepath"
 	"sort"
 	"strings"
+	"unicode"
 	"unicode/utf8"
 
 	"github.com/grafana/regexp"
@@ -483,6 +484,8 @@ type e2eCase struct {
 	Queries []string   `json:"queries"` // textual form, for the replay's reader; queries are regenerated from QSeed
 	QSeed   uint64     `json:"qseed"`
 	CSeed   uint64     `json:"cseed"`
+	// ExtraSubstr: additional case-insensitive substring queries (for hand-written witnesses)
+	ExtraSubstr []string `json:"extraSubstr,omitempty"`
 }
 
 func (r repoSpec) repository() zoekt.Repository {
@@ -695,18 +698,68 @@ func runQueries(dir string, qs []namedQ) ([]string, error) {
 	return out, nil
 }
 
-func hasNonASCIIFold(s string) bool {
-	for _, c := range s {
-		if c >= 0x80 {
+// outsideOrbit: runes whose lower case is not in their own simple-fold orbit (U+0130 İ → i, …). zoekt's case-insensitive
+// candidate generation walks SimpleFold orbits while its verification compares unicode.ToLower: for such runes the two
+// disagree (C08's subject), and whether a candidate is generated depends on which trigrams a shard makes rarest.
+func outsideOrbit(r rune) bool {
+	l := unicode.ToLower(r)
+	if l == r {
+		return false
+	}
+	for f := unicode.SimpleFold(r); f != r; f = unicode.SimpleFold(f) {
+		if f == l {
+			return false
+		}
+	}
+	return true
+}
+
+func hasOutsideOrbit(b []byte) bool {
+	for _, r := range string(b) {
+		if outsideOrbit(r) {
 			return true
 		}
 	}
 	return false
 }
 
+// differingFiles: repository\x00file keys whose canonical line differs between two canonical results
+func differingFiles(a, b string) []string {
+	idx := func(s string) map[string]string {
+		m := map[string]string{}
+		for _, ln := range strings.Split(s, "\n") {
+			if ln == "" {
+				continue
+			}
+			key := ln
+			if i := strings.Index(ln, " br="); i >= 0 {
+				key = ln[:i]
+			}
+			m[key] = ln
+		}
+		return m
+	}
+	ma, mb := idx(a), idx(b)
+	var out []string
+	for k, v := range ma {
+		if mb[k] != v {
+			out = append(out, k)
+		}
+	}
+	for k := range mb {
+		if _, ok := ma[k]; !ok {
+			out = append(out, k)
+		}
+	}
+	return out
+}
+
 func (h *harness) e2eCase(e e2eCase, class string) {
 	qr := gen.NewRand(e.QSeed)
 	qs := genQueries(qr, e.Repos, 24)
+	for _, p := range e.ExtraSubstr {
+		qs = append(qs, namedQ{fmt.Sprintf("substr:%q", p), &query.Substring{Pattern: p}, zoekt.SearchOptions{}})
+	}
 	e.Queries = nil
 	for _, q := range qs {
 		e.Queries = append(e.Queries, q.name+" := "+q.q.String())
@@ -767,8 +820,25 @@ func (h *harness) e2eCase(e e2eCase, class string) {
 		for qi := range qs {
 			if got[qi] != base[qi] {
 				key := "results-differ"
-				if sq, ok := qs[qi].q.(*query.Substring); ok && !sq.CaseSensitive && hasNonASCIIFold(sq.Pattern) {
-					key = "results-differ-ci-nonascii"
+				if sq, ok := qs[qi].q.(*query.Substring); ok && !sq.CaseSensitive {
+					// narrow class: a case-insensitive substring query, and every file whose result differs holds a rune
+					// whose lower case lies outside its fold orbit (in its content or name)
+					all := true
+					diff := differingFiles(base[qi], got[qi])
+					for _, k := range diff {
+						found := false
+						for _, rp := range e.Repos {
+							for _, d := range rp.Docs {
+								if rp.Name+"\x00"+d.Name == k && (hasOutsideOrbit(d.Content) || hasOutsideOrbit([]byte(d.Name))) {
+									found = true
+								}
+							}
+						}
+						all = all && found
+					}
+					if all && len(diff) > 0 {
+						key = "results-differ-ci-lower-outside-fold-orbit"
+					}
 				}
 				c.Go = fmt.Sprintf("config %s, query %s: results differ from the baseline build\n--- baseline\n%s--- %s\n%s", cfg.name, e.Queries[qi],
 					trunc(base[qi]), cfg.name, trunc(got[qi]))
